@@ -121,6 +121,7 @@ type Exec struct {
 	Steps      []*StepRecord
 	step       int
 	clockTicks int
+	reusedRun  bool // the run being checked ran on a kept executor (see doRun)
 	// twoPass: a run with an unrecorded first pass happened (see violate)
 	twoPass bool
 	// loadBroken: the scenario broke a source file or go.mod on purpose.
@@ -136,6 +137,9 @@ type Exec struct {
 }
 
 func (x *Exec) violate(prop, oracle, class, detail string, facts map[string]string) {
+	if x.reusedRun && prop == "C08" {
+		return
+	}
 	if x.twoPass && prop != "C06" && oracle != "X0" && oracle != "R1" {
 		// the history contains a run whose executor made an unrecorded first pass (C06 two-pass drivers):
 		// snapshots and the cache model do not describe what that pass did, so only the call-sequence
@@ -526,7 +530,8 @@ func (x *Exec) doRun(op Op) (*StepRecord, error) {
 		x.Env.Stats.Add("probe/run-from-a-package-directory", 1)
 	}
 	req := &proto.RunReq{Root: x.Root, Cwd: cwd, Args: run.Args, Gens: run.Gens, Sched: run.Sched, Faults: run.Faults, ReadSum: run.Args.All, RetrySameExecutor: run.RetrySameExecutor,
-		FirstGlobals: run.FirstGlobals, HasFirstGlobals: run.HasFirstGlobals, FirstGens: run.FirstGens, SecondContext: second}
+		FirstGlobals: run.FirstGlobals, HasFirstGlobals: run.HasFirstGlobals, FirstGens: run.FirstGens, SecondContext: second,
+		KeepExecutor: run.KeepExecutor, ReuseExecutor: run.ReuseExecutor}
 	for i := range req.Faults {
 		if req.Faults[i].Kind != "" {
 			req.Faults[i].ExecSeq = -1
@@ -609,7 +614,14 @@ func (x *Exec) doRun(op Op) (*StepRecord, error) {
 	if run.HasFirstGlobals {
 		x.twoPass = true
 	}
+	if resp != nil && resp.ReusedExecutor {
+		// the executor was loaded before the previous run wrote its files: what it believes about directory
+		// hashes is older than the tree, so the cache oracles (C08) do not describe this run
+		x.reusedRun = true
+		x.Env.Stats.Add("probe/execute-on-a-kept-executor", 1)
+	}
 	x.checkRun(rec)
+	x.reusedRun = false
 	return rec, nil
 }
 
